@@ -18,6 +18,15 @@ sed -i "s#/verif/target#$L/target#" $L/harness/.cargo/config.toml
 rm -rf $L/root/replays $L/root/evidence; mkdir -p $L/root/evidence
 cp /verif/known_findings.json $L/root/
 rsync -a --exclude 'last-*' /verif/replays $L/root/ 2>/dev/null
+if [ "$ID" = "C10" ]; then
+  # fuzzing check: its own driver builds the fuzz targets of the harness copy against the lane's repository copy
+  sed -i "s#/repo/#$L/repo/#g" $L/harness/fuzz/Cargo.toml
+  rsync -a /verif/corpus $L/root/ 2>/dev/null
+  VERIF_HARNESS_DIR=$L/harness VERIF_FUZZ_TARGET_DIR=$L/target VERIF_ROOT_DIR=$L/root VERIF_REPO_DIR=$L/repo /verif/checks/c10.sh "$TIER"
+  rc=$?
+  echo "mutlane: patch=$PATCH check=$ID tier=$TIER exit=$rc"
+  exit $rc
+fi
 cd $L/harness
 if ! CARGO_NET_OFFLINE=true cargo build --profile verif --bin "$bin" > $L/build-$bin.log 2>&1; then echo "BUILD FAILED"; tail -20 $L/build-$bin.log; exit 2; fi
 VERIF_ROOT_DIR=$L/root VERIF_REPO_DIR=$L/repo $L/target/verif/$bin "$TIER"
